@@ -236,9 +236,14 @@ pub const PREFIXED_KINDS: [&str; 15] =
 /// A length-prefixed object of kind `k` (index into PREFIXED_KINDS) whose body carries `pad`
 /// filler bytes, used to walk the body size across PkgLength width boundaries.
 pub fn padded(k: usize, pad: usize, r: &mut Rng) -> Term {
+    padded_with_path(k, pad, r, false, 1)
+}
+
+/// As `padded`, with the object's own name path of the given shape (where the kind has one).
+pub fn padded_with_path(k: usize, pad: usize, r: &mut Rng, root: bool, nseg: usize) -> Term {
     // a filler child: a BufferData whose payload is `pad` bytes (adds its own few header bytes)
     let filler = || Term::BufferData(vec![0xA5; pad]);
-    let path = PathT { root: false, segs: vec![gen_seg(r)] };
+    let path = PathT { root, segs: (0..nseg).map(|_| gen_seg(r)).collect() };
     match k {
         0 => Term::Package(vec![filler()]),
         1 => Term::PackageBuilder(vec![filler()]),
